@@ -109,6 +109,11 @@ func (n *c10node) String() string {
 
 func boom(id int) string { return fmt.Sprintf("boom-%d", id) }
 
+// c10badJSON: a value whose MarshalJSON hands back bytes that are not JSON.
+type c10badJSON struct{}
+
+func (c10badJSON) MarshalJSON() ([]byte, error) { return []byte(`{"open":[1,`), nil }
+
 // c10panicVal is an error that cannot be asked for its text: what a method
 // panics with when it passes on a broken error it was handed (the typed-nil
 // slip, one level down).
@@ -350,8 +355,14 @@ func (n *c10node) field(healthy bool) zap.Field {
 		return zap.Objects(n.key, vals)
 	case c10Reflect:
 		if f == ftUnencodable {
-			if n.val%2 == 0 {
+			switch n.val % 5 {
+			case 0, 1:
 				return zap.Reflect(n.key, make(chan int))
+			case 2:
+				// bytes that claim to be JSON and are not (a truncated request body)
+				return zap.Reflect(n.key, json.RawMessage(`{"user":"u1","items":[1,2`))
+			case 3:
+				return zap.Any(n.key, c10badJSON{})
 			}
 			return zap.Any(n.key, map[string]any{"f": func() {}})
 		}
@@ -1208,7 +1219,7 @@ func c10judgeLine(c *Ctx, e *c10entry, line string, refObj []jkv) bool {
 					reported = true
 				}
 			}
-			if !reported && m.containsKind(ftUnencodable) && (jfindError(cur, "unsupported type") || jfindError(cur, "unsupported value")) {
+			if !reported && m.containsKind(ftUnencodable) && (jfindError(cur, "unsupported type") || jfindError(cur, "unsupported value") || jfindError(cur, "error calling MarshalJSON")) {
 				reported = true
 			}
 			if !reported && (m.containsKind(ftTypedNil) || m.containsKind(ftNilElem)) && strings.Contains(line, "<nil>") {
